@@ -132,9 +132,13 @@ def switch_fn(
             # No need to touch next_val_is_default, v is guaranteed
             defval = v
         last = None
+    if last is not None:
+        # The last item had no "=": it is the default, also when a
+        # #default=... item was given earlier
+        return last
     if defval is not None:
         return expander(defval).strip()
-    return last or ""
+    return ""
 
 
 def categorytree_fn(
